@@ -696,10 +696,26 @@ func scenC13(run *vlab.Run, sx, tmp string) {
 			run.Violation("error-record-missing", fmt.Sprintf("%d bad entries were passed over (all valid entries were probed) but only %d error records were written", nBad, len(errLines)), map[string]interface{}{"case": desc, "stderr": tailStr(res.Stderr, 1500)})
 			okAll = false
 		}
-		for k, l := range errLines {
-			if k < len(causes) && causes[k] != "" && len(errLines) == nBad && !strings.Contains(l, causes[k]) {
-				run.Violation("error-cause", fmt.Sprintf("error record %d does not state the cause %q of its entry: %.200s", k+1, causes[k], l), desc)
-				okAll = false
+		// causes as a multiset (records of different entries may overtake each other between the workers)
+		if len(errLines) == nBad {
+			left := append([]string(nil), errLines...)
+			for _, cause := range causes {
+				if cause == "" {
+					continue
+				}
+				found := -1
+				for k, l := range left {
+					if strings.Contains(l, cause) {
+						found = k
+						break
+					}
+				}
+				if found < 0 {
+					run.Violation("error-cause", fmt.Sprintf("no error record states the cause %q of one of the bad entries; records: %.600s", cause, strings.Join(errLines, " | ")), desc)
+					okAll = false
+					break
+				}
+				left = append(left[:found], left[found+1:]...)
 			}
 		}
 		if okAll {
